@@ -1,10 +1,9 @@
-import itertools
-from collections.abc import Callable
+from collections.abc import Callable, Iterator
 from typing import TypeVar, Union
 
 import reactivex
 from reactivex import Observable, abc
-from reactivex.internal.utils import infinite, is_future
+from reactivex.internal.utils import is_future
 from reactivex.typing import AnyFuture, Predicate
 
 _T = TypeVar("_T")
@@ -30,9 +29,22 @@ def while_do_(
         else:
             obs = source
         def factory(_: abc.SchedulerBase) -> Observable[_T]:
-            # The repetition iterator is per subscription
-            it = itertools.takewhile(condition, (obs for _ in infinite()))
-            return reactivex.concat_with_iterable(it)
+            # The repetition iterator is per subscription. An exception
+            # raised by the condition is reported through the sequence: a
+            # StopIteration escaping from next() would read as the end of
+            # the loop.
+            def repetitions() -> Iterator[Observable[_T]]:
+                while True:
+                    try:
+                        again = condition(obs)
+                    except Exception as ex:  # pylint: disable=broad-except
+                        yield reactivex.throw(ex)
+                        return
+                    if not again:
+                        return
+                    yield obs
+
+            return reactivex.concat_with_iterable(repetitions())
 
         return reactivex.defer(factory)
 
